@@ -175,6 +175,7 @@ func cmdCheck(args []string) int {
 	var knownLines []string
 	var hev []harnessEvidence
 	funcs := map[string]bool{}
+	blocks := map[string]bool{} // GOSYM_COVERAGE
 	intrinsics := map[string]bool{}
 	var samples []interface{}
 	tot := struct {
@@ -182,6 +183,9 @@ func cmdCheck(args []string) int {
 		solverTime                                                                                                         time.Duration
 	}{}
 	writeEvidence := func(status string) {
+		if os.Getenv("GOSYM_NO_EVIDENCE") != "" {
+			return // exploratory run (coverage, debugging): leave the evidence of the last full run alone
+		}
 		ev := map[string]interface{}{
 			"property_id": spec.PropertyID,
 			"tier":        *tier,
@@ -264,6 +268,9 @@ func cmdCheck(args []string) int {
 		for _, f := range rep.Funcs {
 			funcs[f] = true
 		}
+		for b, hit := range rep.Blocks {
+			blocks[b] = blocks[b] || hit
+		}
 		for _, f := range rep.IntrinsicsUsed {
 			intrinsics[f] = true
 		}
@@ -315,6 +322,22 @@ func cmdCheck(args []string) int {
 		hev = append(hev, he)
 		fmt.Fprintf(os.Stderr, "gosym: %s: %d paths (%v), %d decisions, %d assertion queries (%d sat), %s\n",
 			h.Func, rep.Paths, rep.Outcomes, rep.Decisions, rep.AssertQueries, rep.AssertSat, time.Since(hs).Round(time.Millisecond))
+	}
+
+	if dir := os.Getenv("GOSYM_COVERAGE"); dir != "" {
+		var miss []string
+		hit := 0
+		for b, h := range blocks {
+			if h {
+				hit++
+			} else {
+				miss = append(miss, b)
+			}
+		}
+		sort.Strings(miss)
+		out := fmt.Sprintf("# %s %s: %d of %d blocks of the executed module functions were executed; never executed:\n%s\n", spec.PropertyID, *tier, hit, len(blocks), strings.Join(miss, "\n"))
+		_ = os.MkdirAll(dir, 0o755)
+		_ = os.WriteFile(filepath.Join(dir, spec.PropertyID+".txt"), []byte(out), 0o644)
 	}
 
 	// translator validation: sampled paths are re-run natively
